@@ -10,7 +10,7 @@ RULE = ("the C05 kernel calls and the C06 API histories run in harness/c, where 
         "the working copy of the hasher is itself flush against a guard page, and every assembly routine (System V and Windows-GNU) is "
         "called through a trampoline that plants sentinels in all callee-saved registers of its ABI and checks them, rsp, DF and the "
         "MXCSR control bits on return; the model predicts plain hex output, so any CANARY / REGS / FAULT / MISMATCH / MUTATED / SAN "
-        "flag is a difference; CK dirty 1|2 adds garbage in the unused upper bits of narrow arguments (thorough); thorough also runs "
+        "flag is a difference; `CK hmanysep` gives every hash_many input its own guarded buffer (not adjacent to the next input); CK dirty 1|2 adds garbage in the unused upper bits of narrow arguments (thorough); thorough also runs "
         "the ASan+UBSan build; non-trivial = every kernel call / API history; distinct = distinct script")
 ASSUMPTIONS = ["Miri cannot execute SIMD intrinsics or FFI: the unsafe Rust kernels are covered by the output canaries of harness/rs K ops only",
                "memory and register behaviour is observed on the inputs run, not proved"]
@@ -23,8 +23,17 @@ def stages(tier, seed, witness_search=False):
     ops = c05.single_ops(rng, "CK", c05.C_SYMS, k) + c05.many_ops(rng, "CK", c05.C_SYMS, k // 2)
     kscripts = [Script([o], tags=(" ".join(o.split(" ")[:3]),)) for o in ops]
     api = [c06.history(rng, PLATFORMS[i % 5], rng.randrange(1, 16), 60 * 1024) for i in range(150 if tier == "quick" else 3000)]
+    # hash_many with every input in its own buffer, flush against its own guard page (inputs NOT adjacent)
+    sep = []
+    for sym in c05.C_SYMS:
+        for blocks in (1, 16):
+            for n in list(range(0, 18)) + [33, 64]:
+                ctr = rng.choice([0, (1 << 32) - 3, rng.randrange(1 << 60)])
+                sep.append(Script([f"CK hmanysep {sym} {n} {blocks} {rng.randrange(1 << 30)} {c05.rhex(rng, 32)} {ctr} {rng.randrange(2)} "
+                                   f"{rng.randrange(256)} {rng.randrange(256)} {rng.randrange(256)}"], tags=(f"hmanysep {sym}",)))
     rs_ops = c05.many_ops(rng, "K", PLATFORMS, k // 4)
     st = [LineStage("c-kernels-guarded", kscripts, impl="c"), LineStage("c-api-guarded", api, impl="c"),
+          LineStage("c-hash-many-separate-inputs", sep, impl="c", max_minimise=40),
           LineStage("rs-kernels-canary", [Script([o], tags=("K",)) for o in rs_ops], features=("pure",))]
     return st
 
